@@ -143,6 +143,20 @@ Proof.
 Qed.
 Print Assumptions standalone_lock_discipline.
 
+(* A closed standalone server is never started again: once __is_closed is set no serve_forever thread is between its
+   __is_closed test and the start of a run, and a serve_forever thread that takes its first lock is refused with
+   ServerClosedError.  (Depends on the regenerated data: the test must be made under the close lock.) *)
+Theorem standalone_closed_refuses :
+  forall s, treachable s -> t_closed s = true ->
+    cnt isV1 (thr s) + cnt isV2 (thr s) = 0 /\
+    (forall i rest, ttake i (thr s) = Some (V0, rest) -> close_l s = None ->
+       exists s', tstep s (TStep i) = Some (s', [(i, TClosed)])).
+Proof. exact closed_refuses_threads. Qed.
+Print Assumptions standalone_closed_refuses.
+
+(* The order in which serve_forever and server_close take the close lock and the bootstrap lock is DATA regenerated from
+   the source (Gen/ParamsC18.v serve_first_lock / close_first_lock / serve_closed_check_under_lock); the invariant behind
+   the theorems of this section is re-proved against it on every run and does not hold for an inconsistent order. *)
 (* No deadlock among the threads (with the guarded shutdown): whenever some thread exists other than the serving
    thread idling in its loop with no stop requested, some thread can take a step or the asynchronous run can end. *)
 Theorem standalone_no_deadlock :
